@@ -64,7 +64,7 @@ def run(ctx):
     with ctx.rule("C02.GATE", "one strategy predicate; every strategy run site enumerated; line strategies behind check_config", floor=12, kind="GUARD/PARITY") as r:
         c13.strategy_rule(ctx, r)
         from . import c11
-        c11.multiline_anchor_rule(ctx, r)
+        c11.anchors_tables(ctx, r)
         runs = []
         for f in facts.fns_in(SEARCHER + "::"):
             for c in f.calls():
@@ -259,9 +259,10 @@ def run(ctx):
                 esc = C.all_paths_pass(f, [0], {e.bb for e in ens}, [c.bb])
                 if esc:
                     bad.append(c)
-                # around the loop
-                after = C.reach(f, [c.target], removed_blocks={e.bb for e in ens})
-                if c.bb in after:
+                # around the loop, after a read that transferred something (a failed read — the Interrupted retry — leaves
+                # the window as ensure_capacity() made it)
+                s_ok = seed_after_call(f, c, V("Ok", None), stop_blocks={e.bb for e in ens})
+                if c.bb in s_ok.exec_blocks:
                     bad.append(c)
             v, d = classify_result(f, ens[0])
             if bad:
@@ -294,30 +295,43 @@ def run(ctx):
                     r.ok("eof", "EOF ⇒ last_lineterm = end, return", fn=f)
                 else:
                     r.bad("eof", "at end of input the unterminated tail is not exposed as a final line", fn=f, construct="eof")
-        # roll: both branches reposition the three window cursors; the non-empty branch moves the bytes
+        # roll: on every path the three window cursors are repositioned (pos = 0; last_lineterm = end = what was left, i.e.
+        # 0 or end - pos) and the bytes that were left are moved to the front — skipping the move only on an edge that says
+        # nothing was left. (Decided on the paths, not on how the function spells its two cases.)
         rl = facts.fn(LB + "::roll")
         ebr = ExprBuilder(rl)
-        emp = cond_switches(rl, lambda e: e.k == "bin" and e[1] == "Eq" and mentions_field(e, LB, "pos") and mentions_field(e, LB, "end"), ebr)
-        if emp:
-            okb = True
-            det = []
-            for lbl, edge in (("empty", emp[0][1]), ("rolling", emp[0][2])):
-                reg = C.reach(rl, [edge[1]])
-                other = C.reach(rl, [(emp[0][2] if lbl == "empty" else emp[0][1])[1]])
-                w = set()
-                for bb, j, st in rl.stmts():
-                    if bb in reg and st["k"] == "assign":
-                        w |= {fl for o, fl in fields_of_place(st["place"]) if o == LB}
-                cw = any(c.bb in reg and c.bb not in other and c.path.endswith("copy_within") for c in rl.calls())
-                if not {"pos", "last_lineterm", "end"} <= w or (lbl == "rolling" and not cw):
-                    okb = False
-                    det.append("%s branch writes %s%s" % (lbl, sorted(w), "" if lbl == "empty" or cw else ", no copy_within"))
-            if okb:
-                r.ok("lb-roll", "both branches reset pos/last_lineterm/end; the non-empty one moves the bytes with copy_within", fn=rl)
+        rets_ = rl.return_blocks()
+        det = []
+        for fld in ("pos", "last_lineterm", "end"):
+            ws = [(bb, ebr.rvalue(st["rv"])) for bb, j_, st in rl.stmts() if st["k"] == "assign" and (LB, fld) in fields_of_place(st["place"])]
+            if not ws or C.all_paths_pass(rl, [0], [bb for bb, _ in ws], rets_):
+                det.append("%s is not rewritten on every path" % fld)
+                continue
+            for bb, e in ws:
+                zero = e.k == "const" and e[1] == 0
+                left = any(x.k == "bin" and x[1] in ("Sub", "SubWithOverflow") and mentions_field(x[2], LB, "end") and mentions_field(x[3], LB, "pos")
+                           for x in walk(e))
+                if not (zero or (fld != "pos" and left)):
+                    det.append("%s = `%s`" % (fld, show(e)[:50]))
+        cw = [c for c in rl.calls() if c.path.endswith("copy_within")]
+        empty_edges = set()
+        for bb, te, fe, e in cond_switches(rl, lambda e: e.k == "bin" and e[1] in ("Eq", "Ne", "Gt", "Lt") and
+                                           (mentions_field(e, LB, "pos") or mentions_field(e, LB, "end")), ebr):
+            # the edge on which nothing is left: pos == end / !(end - pos > 0) / !(pos < end) …
+            if e[1] == "Eq":
+                empty_edges.add(te)
+            elif e[1] == "Ne":
+                empty_edges.add(fe)
             else:
-                r.bad("lb-roll", "LineBuffer::roll: %s" % "; ".join(det), fn=rl, construct="roll")
+                empty_edges.add(fe)
+        if not cw:
+            det.append("no copy_within")
+        elif C.all_paths_pass(rl, [0], [c.bb for c in cw], rets_, removed_edges=empty_edges):
+            det.append("the bytes that are left are not moved on every path that has some")
+        if det:
+            r.bad("lb-roll", "LineBuffer::roll: %s" % "; ".join(det), fn=rl, construct="roll")
         else:
-            r.bad("lb-roll", "anchor-missing: LineBuffer::roll no longer distinguishes pos == end", fn=rl)
+            r.ok("lb-roll", "every path: pos = 0, last_lineterm = end = bytes left; those bytes moved with copy_within", fn=rl)
         cs_ = facts.fn(LB + "::consume")
         ebc = ExprBuilder(cs_)
         wv = {}
